@@ -521,6 +521,7 @@ def check(src, rep):
     include(rep, src, "C16", {"R1", "R2", "R3"}, "R3", "after noise the reader remains usable")
     include(rep, src, "C01", {"R2", "R4"}, "R1", "HdlcFrame.append / the header update and the address scan stay inside the frame (no index error while a frame is built)")
     include(rep, src, "C03", None, "R1", "the FCS table has an entry for every masked index (the register update cannot raise)")
+    include(rep, src, "C13", {"R3"}, "R3", "after noise the protocol still feeds the reader of the protocol on the wire (a candidate reader is never dropped or starved of chunks before one is selected)")
     include(rep, src, "C13", {"R4"}, "R1", "the protocol modifies only its own copy of the candidate list (a caller's tuple / shared list is never cleared)")
     rep.floor("entry points", n_entry, 13)
     rep.floor("exception sites on the read paths", n_sites, 8)
